@@ -589,7 +589,7 @@ func main() {
 				for d := 0; d <= s.MaxDelay; d++ {
 					levels = append(levels, mc.Bounds{Preempt: d, Delay: d, Deviate: dev})
 				}
-				out = append(out, mc.Scenario{Name: s.Name, Levels: levels})
+				out = append(out, mc.Scenario{Name: s.Name, Levels: levels, Races: true})
 			}
 			// generated plugins: every schema of the universe as the input and output of an echo step, its inputs executed
 			// through the real client and server under the default schedule
